@@ -428,6 +428,14 @@ func (w *World) enabled() []core.WCmd {
 	if p.StallW > 0 {
 		ds := []int64{1, 7, 300, 1000, 1001, 2500, 15001, 61000}
 		add(p.StallW, core.Cmd{A: "adv", N: ds[r.Intn(len(ds))]})
+		// a stall past the strict timeout while the checkpoint upload or the
+		// lock update is in flight
+		for _, op := range w.liveParked() {
+			if (op.Kind == "up" && op.Key == "checkpoint") || op.Kind == "lreplace" {
+				add(p.StallW*4, core.Cmd{A: "adv", N: 1001})
+				break
+			}
+		}
 	}
 	if p.ClockW > 0 {
 		switch r.Intn(4) {
@@ -484,6 +492,13 @@ func (w *World) exec(c core.Cmd) bool {
 		if op.Kind == "cache" {
 			w.sim.Release(op, core.OutOK)
 			return true
+		}
+		if out == core.OutOK && op.Ctx != nil && op.Ctx.Err() != nil {
+			// the caller's deadline passed while the operation was in flight: a
+			// context-honouring client returns the context error, whether or not
+			// the request took effect on the other side
+			out = core.OutErrApplied
+			w.sim.Probe("fault.ctx-expired." + op.Kind)
 		}
 		if !op.Mut && out == core.OutErrApplied {
 			out = core.OutErrNot
